@@ -606,6 +606,16 @@ func c05Program(rt *rapid.T) (c05Case, map[string]int) {
 		}
 		ipb.WriteString("}\n\n")
 	}
+	// interfaces also reachable under an alias name (type IAl = I; type LitAl = interface{...})
+	aliased := map[string]bool{}
+	for _, it := range ifaces {
+		if !it.Local && g.chance("ifaceAlias", 30) {
+			fmt.Fprintf(&ipb, "type %sAl = %s\n\n", it.Name, it.Name)
+			aliased[it.Name] = true
+			classes["interface declared through a type alias"]++
+		}
+	}
+	ipb.WriteString("type LitAl = interface{ LitM() int }\n\n")
 	// implementing package
 	importAlias := ""
 	switch g.pick("importForm", 4) {
@@ -665,6 +675,8 @@ func c05Program(rt *rapid.T) (c05Case, map[string]int) {
 			iname = "NotIface"
 		case k == 6 && !it.Local:
 			iname = "Tok"
+		case k >= 7 && k <= 9 && aliased[it.Name]:
+			iname = it.Name + "Al" // the alias denotes the same interface
 		}
 		annot := "// @implements "
 		if ptr {
@@ -792,6 +804,21 @@ func c05Program(rt *rapid.T) (c05Case, map[string]int) {
 		for _, d := range decls {
 			ib.WriteString(d + "\n")
 		}
+	}
+	// a type aimed at the alias of an interface literal
+	if g.chance("litAlias", 30) {
+		amp := ""
+		if g.chance("litAmp", 50) {
+			amp = "&"
+		}
+		fmt.Fprintf(&ib, "// @implements %s%sLitAl\ntype TLit struct{}\n\n", amp, q)
+		switch g.pick("litProvide", 3) {
+		case 0:
+			ib.WriteString("func (t TLit) LitM() int { return 0 }\n\n")
+		case 1:
+			ib.WriteString("func (t *TLit) LitM() int { return 0 }\n\n")
+		}
+		classes["alias of an interface literal"]++
 	}
 	// types aiming at the sealed interface
 	for k, n := 0, rapid.IntRange(0, 2).Draw(rt, "nsealed"); k < n; k++ {
